@@ -243,7 +243,7 @@ def run(ctx):
     rng = ctx.rng("c09")
     ncase = 150 if ctx.quick else 4000
     units = ["main:rdd2", "main:rdd2_loglinear", "main:bezier", "algorithms:mrp", "algorithms:sim", "codegen:mrp", "codegen:sim", "codegen:mr_ref_traj",
-             "direct:rdd2", "direct:rdd2_loglinear", "direct:bezier"] + ["options:%d" % i for i in range(5)]
+             "direct:rdd2", "direct:rdd2_loglinear", "direct:bezier", "sequence:all"] + ["options:%d" % i for i in range(5)]
     for i, u in enumerate(units):
         if i % ctx.nshards != ctx.shard:
             continue
@@ -287,18 +287,26 @@ def unit(ctx, u, d, rng, ncase):
             eqs = lib_call(ctx, "derive", "algorithms.eqs", algorithms.eqs, not_implemented_ok=False)
         if eqs is None:
             return
-        if name == "mr_ref_traj":
-            sets = {"mr_ref_traj": mr_ref_traj.derive_mr_ref_traj()}
-        else:
-            sets = {name: eqs[name]}
+        # the generators take a dictionary of equation sets and must write one file per set: call them the way users
+        # do, with several sets at once, and verify every set's file; this unit then executes its own set's file
         if kind == "algorithms":
+            sets = dict(eqs)
             ok = lib_call(ctx, "generate_code", u, lambda: (algorithms.generate_code(sets, d), True)[1], not_implemented_ok=False)
             cfile = os.path.join(d, "casadi_%s.c" % name)
+            expect_files = ["casadi_%s.c" % n for n in sets]
             wm = True  # shipped default of this generator
         else:
+            sets = dict(eqs)
+            sets["mr_ref_traj"] = mr_ref_traj.derive_mr_ref_traj()
+            order = list(sets)
+            k = order.index(name)
+            sets = {n: sets[n] for n in order[k:] + order[:k]}  # every unit passes the sets in a different order
             ok = lib_call(ctx, "generate_code", u, lambda: (codegen.generate_code(sets, d), True)[1], not_implemented_ok=False)
             cfile = os.path.join(d, "%s.c" % name)
+            expect_files = ["%s.c" % n for n in sets]
             wm = False
+        have = sorted(os.listdir(d)) if os.path.isdir(d) else []
+        ctx.check("one_file_per_equation_set", u, all(f in have for f in expect_files), {"entry": "%s.generate_code" % kind, "sets": list(sets), "expected": expect_files, "written": have})
         ctx.check("generation_succeeds", u, bool(ok) and os.path.exists(cfile), {"entry": "%s.generate_code" % kind, "set": name})
         if os.path.exists(cfile):
             funcs = {f.name(): f for f in sets[name].values()}
@@ -306,6 +314,8 @@ def unit(ctx, u, d, rng, ncase):
             check_file(ctx, u, cfile, funcs, rng, ncase, extra_flags=flags, with_mem=wm, expected=list(funcs))
     elif kind == "options":
         option_sweep(ctx, int(name), d, rng, codegen, mods)
+    elif kind == "sequence":
+        call_sequences(ctx, d, codegen, algorithms, mods)
 
 
 def option_sweep(ctx, part, d, rng, codegen, mods):
@@ -383,6 +393,51 @@ def option_sweep(ctx, part, d, rng, codegen, mods):
             files = sorted(os.listdir(dd)) if os.path.isdir(dd) else []
             ctx.check("generation_succeeds_for_option_combination", "algorithms", bool(ok) and any(f.endswith(".c") for f in files), {"options": "%s=%d" % (k, not dflt), "files": files})
             shutil.rmtree(dd, ignore_errors=True)
+
+
+def snapshot(d):
+    out = {}
+    for f in sorted(os.listdir(d)) if os.path.isdir(d) else []:
+        with open(os.path.join(d, f), "rb") as fh:
+            out[f] = fh.read()
+    return out
+
+
+def call_sequences(ctx, d, codegen, algorithms, mods):
+    """histories of generator calls in one process: what a call emits must depend on its arguments only.
+    default call -> calls with other options -> default call again must reproduce the first output byte for byte"""
+    with quiet():
+        from cyecca.models import bezier
+        small = {"b3": bezier.derive_bezier3()}
+        eqs = algorithms.eqs()
+    flat = {f.name(): f for f in small["b3"].values()}
+    gens = {
+        "cyecca.codegen.generate_code": (lambda dd, **o: codegen.generate_code(small, dd, **o),
+                                         [dict(with_header=False, main=True), dict(with_mem=True, verbose=False), dict(cpp=True, with_export=True)]),
+        "algorithms.generate_code": (lambda dd, **o: algorithms.generate_code({"sim": eqs["sim"]}, dd, **o),
+                                     [dict(with_header=False, with_mem=False, main=True), dict(mex=True)]),
+    }
+    for mname, mod in mods.items():
+        gens["cyecca.models.%s.generate_code" % mname] = (lambda dd, mod=mod, **o: mod.generate_code(flat, filename="x.c", dest_dir=dd, **o),
+                                                          [dict(with_header=False, main=True), dict(with_mem=True), dict(include_math=False, avoid_stack=False)])
+    for gname, (g, others) in gens.items():
+        d1, d2 = os.path.join(d, "first"), os.path.join(d, "again")
+        shutil.rmtree(d1, ignore_errors=True)
+        shutil.rmtree(d2, ignore_errors=True)
+        with quiet():
+            ok = lib_call(ctx, "generate_code", gname, lambda: (g(d1), True)[1], not_implemented_ok=False)
+            for k, o in enumerate(others):
+                dk = os.path.join(d, "other%d" % k)
+                lib_call(ctx, "generate_code", gname, lambda: (g(dk, **o), True)[1], not_implemented_ok=False)
+                shutil.rmtree(dk, ignore_errors=True)
+            ok2 = lib_call(ctx, "generate_code", gname, lambda: (g(d2), True)[1], not_implemented_ok=False)
+        a, b = snapshot(d1), snapshot(d2)
+        same = bool(ok) and bool(ok2) and a.keys() == b.keys() and all(a[k] == b[k] for k in a)
+        diff = sorted(set(a) ^ set(b)) + [k for k in a if k in b and a[k] != b[k]]
+        ctx.check("output_depends_on_arguments_only", gname, same, {"generator": gname, "intervening_calls": [str(o) for o in others], "files_first": sorted(a), "files_again": sorted(b), "differing": diff})
+        shutil.rmtree(d1, ignore_errors=True)
+        shutil.rmtree(d2, ignore_errors=True)
+    ctx.count("generator_call_histories", len(gens))
 
 
 def finalize(m, tier):
